@@ -1420,6 +1420,15 @@ package badger
 //@   assert[range-ends-at-split-key] before call SafeCopy#1 : len(arg0) == 0
 //@   assert[next-starts-at-same-key] before call SafeCopy#2 : len(arg0) == 0
 
+// DB.Backup: an incremental backup streams only versions newer than `since` (the stream's
+// SinceTs) and hands the same `since` to Stream.Backup, whose per-key function rejects anything
+// older.
+//@ func (*DB).Backup
+//@   props C24
+//@   light
+//@   assert[only-versions-since] before call Backup : arg0 == ret(NewStream#1) && arg0.SinceTs == since && arg1 == w && arg2 == since
+//@   assert[result-of-stream-backup] before return : result0 == ret0(Backup#1) && result1 == ret1(Backup#1)
+
 // ---- restoring a backup (C24) ----
 
 // KVLoader.Set: the loaded entry carries the KV's key at the KV's version, its value, user
